@@ -58,9 +58,9 @@ def random_merge(rng, seqs):
     return out
 
 
-def sched_case(reqs, m, script, nbad=0):
-    """m reloads in total, the last nbad of them are given a subnet file that does not exist"""
-    return {"kind": "sched", "reqs": reqs, "reloads": m, "script": script, "bad": list(range(m - nbad, m))}
+def sched_case(reqs, m, script, nbad=0, bad=None):
+    """m reloads in total; those listed in `bad` (default: the last nbad) are given a subnet file that does not exist"""
+    return {"kind": "sched", "reqs": reqs, "reloads": m, "script": script, "bad": sorted(bad) if bad is not None else list(range(m - nbad, m))}
 
 
 def gen_cases(ctx):
@@ -82,27 +82,32 @@ def gen_cases(ctx):
     # exhaustive interleavings at the selector scheduling points
     exh = [([DUAL], 1), ([DUAL], 2), ([DUAL, V4], 1), ([V6, V4], 2), ([req(True, True, False, True)], 1), ([req(True, True, True, False), DUAL], 1)]
     # reloads that fail (no subnet file).  The file a reload reads is chosen through a process-wide environment
-    # variable at the time the reload reads it, which the driver cannot pin when several reloads are in flight, so a
-    # scenario has either only good or only failing reloads (the outcome is then independent of who reads what).
+    # variable at the moment the reload reads it; the driver sets it right before launching the reload, which pins
+    # it for the code as it is (the file is read before Lock) but not for every legitimate implementation.  When
+    # succeeding and failing reloads are mixed the number of failures is therefore OBSERVED, not asserted: the
+    # model is instantiated with that many failing reloads.
     for m in (1, 2):
         for script in interleavings(thread_actions([DUAL], m)):
             cases.append(sched_case([DUAL], m, script, nbad=m))
+    for bad in ([0], [1]):
+        for script in interleavings(thread_actions([DUAL], 2)):
+            cases.append(sched_case([DUAL], 2, script, bad=bad))
     if not quick:
-        exh += [([DUAL, DUAL], 1), ([DUAL, DUAL], 2), ([DUAL, V6], 2), ([DUAL, V4, NONE], 1), ([DUAL, V4, V6], 1)]
+        exh += [([DUAL, DUAL], 1), ([DUAL, DUAL], 2), ([DUAL, V6], 2), ([DUAL, V4, NONE], 1), ([DUAL, V4, V6], 1), ([V4, V4, V6, NONE], 1)]
     for reqs, m in exh:
         for script in interleavings(thread_actions(reqs, m)):
             cases.append(sched_case(reqs, m, script))
     # random larger ones (k <= 3 requests of random kinds, m <= 2 reloads)
     for _ in range(120 if quick else 1500):
-        k = rng.choice([1, 2, 2, 3, 3])
+        k = rng.choice([1, 2, 2, 3, 3] if quick else [1, 2, 2, 3, 3, 4, 4])
         reqs = []
         for _ in range(k):
             r = rng.choice([DUAL, DUAL, DUAL, V4, V6, NONE, req(True, True, True, False), req(True, True, False, True),
                             req(True, False, True, False), req(False, True, False, True)])
             reqs.append(dict(r))
         m = rng.choice([1, 1, 2, 2, 0, 3])
-        nbad = rng.choice([0, 0, 0, m])
-        cases.append(sched_case(reqs, m, random_merge(rng, thread_actions(reqs, m)), nbad))
+        bad = [j for j in range(m) if rng.random() < 0.25]
+        cases.append(sched_case(reqs, m, random_merge(rng, thread_actions(reqs, m)), bad=bad))
     # the mutex model itself against the real sync.RWMutex: crafted wake-up orders, then random scripts of lock calls
     def mo(t, op):
         return {"t": t, "op": op}
@@ -161,9 +166,9 @@ def term(c, r):
             return None
         return "(CDepth %s %s %d)" % (greq(c["reqs"][0]), glist(sels, lambda s: "(%s, %d)" % (gbool(s[0] == 1), s[1])), r["final"])
     if c["kind"] == "sched":
-        nbad = len(c.get("bad") or [])
-        return "(CSched %s %d %d %s %s %d %d %d)" % (
-            glist(c["reqs"], greq), c["reloads"] - nbad, nbad, gbool(r["completed"]), glist(r["reqs"] or [], gobs),
+        nfail = min(r["reload_errs"], c["reloads"])      # observed (see gen_cases on mixed scenarios)
+        return "(CSched %s %d %d %d %s %s %d %d %d)" % (
+            glist(c["reqs"], greq), c["reloads"] - nfail, nfail, c["reloads"], gbool(r["completed"]), glist(r["reqs"] or [], gobs),
             sum(1 for x in (r["reloads_done"] or []) if x), r["reload_errs"], max(0, r["final_ver"]))
     return None
 
@@ -198,9 +203,10 @@ def oracle(ctx, c, r):
                 ctx.fail("mixed/sched", "request %d got its IPv4 phantom from subnet set %d and its IPv6 phantom from set %d (%s)"
                          % (i, o["v4ver"], o["v6ver"], describe(c)), {**c, "observed": r["reqs"]})
         nbad = len(c.get("bad") or [])
-        if not all(r["reloads_done"] or []) or r["reload_errs"] != nbad:
+        pure = nbad in (0, c["reloads"])
+        if not all(r["reloads_done"] or []) or (pure and r["reload_errs"] != nbad) or r["reload_errs"] > c["reloads"]:
             ctx.fail("reload/sched", "a reload did not complete, or %d reloads failed where %d have no file (%s)" % (r["reload_errs"], nbad, describe(c)), c)
-        if c["reloads"] - nbad > 0 and r["final_ver"] == 0:
+        if c["reloads"] - r["reload_errs"] > 0 and r["final_ver"] == 0:
             ctx.fail("reload-lost/sched", "all reloads returned but the old selector is still installed (%s)" % describe(c), c)
     if kind == "stress":
         if r["mixed"]:
